@@ -461,7 +461,7 @@ func (a *adversary) injectWire(in Inject) {
 		return
 	}
 	m := &Msg{fromID: hotstuff.ID(in.From), to: target, kind: in.Kind, wire: buf, forged: true}
-	if a := mix(in.Gen, 0x616e6f6e) % 10; a < 2 {
+	if a := mix(in.Gen, 0x616e6f6e) % 10; a < 2 || (a == 2 && w.plan.knob("latmatrix", 0) == 1) {
 		m.anon = int(a) + 1 // a Byzantine peer also chooses what its connection says about who it is
 		w.fault("fuzz:unidentified-sender")
 	}
